@@ -9,7 +9,8 @@ assignment histories on fresh objects and on objects of the corpus decks, the mo
 predicted outcomes, read-backs and element state against the implementation -> oracle: the
 property's statement evaluated directly on the implementation (read-after-write within the
 quantum, same after save + re-open, None restores the default/inherited reading, out-of-domain
-values raise TypeError/ValueError and leave the part's XML unchanged, sibling readings unchanged).
+values raise TypeError/ValueError, readings of the other independent properties unchanged -- also after a
+refused assignment, after which every getter must still work).
 """
 import glob
 import io
@@ -687,9 +688,9 @@ def make_kinds(rng):
         P("text", None, txt(), [5, None], [], cls="_Run")]))
     urls = ["http://example.org/a?b=1&c=2", "https://example.com/", "mailto:x@y.z"]
     K.append(Kind("shape_hyperlink", b_autoshape, lambda prs: sh0(prs).click_action.hyperlink, None, [
-        P("address", None, urls, [], [5], none=("reads", None), cls="Hyperlink")], reopen=True))
+        P("address", None, urls, [5, 1.5], [], none=("reads", None), cls="Hyperlink")], reopen=True))
     K.append(Kind("run_hyperlink", b_textbox, lambda prs: sh0(prs).text_frame.paragraphs[0].runs[0].hyperlink, None, [
-        P("address", None, urls, [], [5], none=("reads", None), cls="_Hyperlink")], reopen=True))
+        P("address", None, urls, [5, 1.5], [], none=("reads", None), cls="_Hyperlink")], reopen=True))
 
     def b_two_slides():
         prs = b_autoshape()
@@ -958,24 +959,39 @@ def oracle_trial(ck, kind, p, v, verdict, reopen, stats, where="fresh", prs=None
            "object_kind": kind.name, "attr": p.attr, "value": val_spec(v), "prepare": prep_spec, "label": p.label}
     if res[0] == "err":
         if res[1] not in ("Type", "Value"):
-            ck.violation("raises:%s:%s" % (p.name, res[2]), "%s = %r on a %s raises %s, not TypeError/ValueError" % (p.name, v, kind.name, res[2]),
+            ck.violation("wrong-exception:%s:%s" % (p.name, res[2]), "%s = %r on a %s raises %s, not TypeError/ValueError" % (p.name, v, kind.name, res[2]),
                          dict(rec, impl_outcome=res[2]))
         elif verdict == "valid":
             ck.violation("rejects-valid:%s:%s" % (p.name, value_class(v)), "%s = %r (in the documented domain) is refused with %s" % (p.name, v, res[2]),
                          dict(rec, impl_outcome=res[2]))
+        # What a refusal may NOT do (clause d and the readability of the object): change the reading of a
+        # different, independent property, or leave a getter of the object raising.  Leaving an empty element
+        # behind, or dropping the old explicit value of the SAME property, is outside the property's statement
+        # and only counted.
         after_xml = c14n(part)
-        if after_xml != before_xml:
-            after = {q.attr: getp(obj, q.attr) for q in kind.props}
-            changed = [a for a in after if not eq_reading(after[a], before[a])]
-            ck.violation(("reject-mutates:%s" if changed else "reject-residue:%s") % p.name,
-                         "%s = %r raises %s but the XML of the part has changed (readings changed: %s)" % (
-                             p.name, v, res[2], ", ".join("%s %s -> %s" % (a, reading_repr(before[a]), reading_repr(after[a])) for a in changed) or "none"),
+        after = {q.attr: getp(obj, q.attr) for q in kind.props}
+        changed = [a for a in after if not eq_reading(after[a], before[a])]
+        raising = [a for a in changed if after[a][0] == "err" and before[a][0] == "ok"]
+        groupmates = {q.attr for q in kind.props if q is p or (p.group is not None and q.group == p.group)}
+        siblings = [a for a in changed if a not in groupmates]
+        desc = ", ".join("%s %s -> %s" % (a, reading_repr(before[a]), reading_repr(after[a])) for a in changed)
+        if raising:
+            ck.violation("reject-breaks-getter:%s" % p.name,
+                         "%s = %r raises %s and afterwards reading %s raises (%s)" % (p.name, v, res[2], ", ".join(raising), desc),
                          dict(rec, impl_outcome=res[2], readings_changed=changed))
+        elif siblings:
+            ck.violation("reject-breaks-sibling:%s" % p.name,
+                         "%s = %r raises %s but changes the reading of another property (%s)" % (p.name, v, res[2], desc),
+                         dict(rec, impl_outcome=res[2], readings_changed=changed))
+        elif changed:
+            stats.setdefault("rejected_lost_own_value", set()).add(p.name)
+        elif after_xml != before_xml:
+            stats.setdefault("rejected_with_residue", set()).add(p.name)
         return
     # accepted
     read = getp(obj, p.attr)
     if verdict == "invalid":
-        ck.violation("accepts:%s:%s" % (p.name, value_class(v)), "%s = %r (outside the documented domain) is accepted; it then reads %s" % (
+        ck.violation("ood-accepted:%s" % p.name, "%s = %r (outside the documented domain) is accepted; it then reads %s" % (
             p.name, v, reading_repr(read)), dict(rec, impl_outcome=reading_repr(read)))
     elif v is None:
         if p.none is not None and not p.truthy:
@@ -1385,11 +1401,11 @@ def run(ck, tier, rng):
     found_sigs = {v["sig"] for v in ck.violations} | {s_ for s_, _w in ck.known_hits}
     unreplayed = []
     for cn in sorted(set(diag.get(7003, []))):
-        if ("reject-mutates:" + cn) not in found_sigs and ("reject-residue:" + cn) not in found_sigs:
+        if ("reject-breaks-getter:" + cn) not in found_sigs:
             unreplayed.append(cn)
-            ck.violation("nonatomic-unreplayed:" + cn,
-                         "the model finds a refused assignment to %s that changes the element (Diag_C09, C09_nonatomic_witness_sound) but no such assignment was reproduced on the implementation" % cn,
-                         {"theorem_or_correspondence": "C09_no_unknown_nonatomic", "property": cn}, concrete=False)
+            ck.violation("breaking-unreplayed:" + cn,
+                         "the model finds a refused assignment to %s after which its getter raises (Diag_C09, C09_breaking_witness_sound) but no such assignment was reproduced on the implementation" % cn,
+                         {"theorem_or_correspondence": "C09_no_unknown_breaking", "property": cn}, concrete=False)
 
     any_concrete = any(v["concrete"] for v in ck.violations) or bool(ck.known_hits)
     if diffs and not any_concrete:
@@ -1406,9 +1422,12 @@ def run(ck, tier, rng):
                "settable_properties": len(meta["settable"]),
                "oracle_only_exercised": sorted("%s.%s" % x for x in exercised if x in oo_pairs),
                "oracle_only_not_exercised": sorted("%s.%s" % x for x in oo_pairs if x not in exercised),
-               "model_nonatomic": diag.get(7002, []), "model_nonatomic_unrecorded": sorted(set(diag.get(7003, []))),
-               "model_nonatomic_not_reproduced": unreplayed,
-               "counts": stats, "correspondence_diffs": diffs, "histories": len(cases), "exhaustive": False})
+               "model_nonatomic": diag.get(7002, []), "model_getter_breaking": diag.get(7004, []),
+               "model_getter_breaking_unrecorded": sorted(set(diag.get(7003, []))),
+               "model_getter_breaking_not_reproduced": unreplayed,
+               "rejected_with_residue": sorted(stats.get("rejected_with_residue", ())),
+               "rejected_lost_own_value": sorted(stats.get("rejected_lost_own_value", ())),
+               "counts": {k_: v_ for k_, v_ in stats.items() if not isinstance(v_, set)}, "correspondence_diffs": diffs, "histories": len(cases), "exhaustive": False})
 
 
 def replay(rec):
